@@ -97,10 +97,10 @@ LAYOUT_FLAGS = (
 MODEL_FLAGS = tuple(f for f in LAYOUT_FLAGS if f not in ('lower_code', 'lower', 'nul_kv'))
 
 
-def _toks(tokens, F, start=0):
+def _toks(tokens, F, start=0, nonul=False):
     """Join option tokens with the separators selected by the flags."""
     seps = [' ']
-    if 'nul' in F:
+    if 'nul' in F and not nonul:
         seps.append('\x00')
     if 'tabsep' in F:
         seps.append('\t')
@@ -219,7 +219,7 @@ def _pred_body(F):
     return lines
 
 
-def build_records(base, flags, pk_body=None, error_body=None, thetas=None, cov=True):
+def build_records(base, flags, pk_body=None, error_body=None, thetas=None, cov=True, model=False):
     """Returns a list of (kind, first, lines): first is the rest of the record name line,
     lines are the following lines of the record (without line ends)."""
     F = set(flags)
@@ -228,19 +228,23 @@ def build_records(base, flags, pk_body=None, error_body=None, thetas=None, cov=T
     def option_record(kind, tokens, comment=None, own=None, start=0):
         """tokens: list of option strings; comment: trailing comment; own: own-line comment"""
         cmt = f' ; {comment}' if (comment and 'cmt_after' in F) else ''
+        # pharmpy reads ID<NUL>TIME as ONE data column and ADVAN1<NUL>TRANS2 as one option, which makes
+        # the model unreadable: when a model is wanted (model=True) no NUL in $INPUT / $SUBROUTINES (single
+        # record texts with NUL separators are in gen_option_records)
+        nn = model and kind in ('INPUT', 'SUBROUTINES')
         if 'multiline' in F and len(tokens) > 1:
             k = (len(tokens) + 1) // 2
-            lines = ['  ' + _toks(tokens[:k], F, start) + cmt]
+            lines = ['  ' + _toks(tokens[:k], F, start, nn) + cmt]
             if own and 'cmt_own' in F:
                 lines.append(f'; {own}')
-            lines.append('\t' + _toks(tokens[k:], F, start + 1))
+            lines.append('\t' + _toks(tokens[k:], F, start + 1, nn))
             recs.append((kind, '', lines))
         else:
             lines = []
             if own and 'cmt_own' in F:
                 lines.append(f';{own}')
                 lines.append(f'  ; $ {own} (indented)')
-            recs.append((kind, (' ' if tokens else '') + _toks(tokens, F, start) + cmt, lines))
+            recs.append((kind, (' ' if tokens else '') + _toks(tokens, F, start, nn) + cmt, lines))
 
     title = '' if 'empty_title' in F else ' base model'
     recs.append(('PROBLEM', title, [';; 1. Based on: 0', ';; 2. Description:'] if 'cmt_own' in F else []))
@@ -1164,6 +1168,23 @@ def _word_in(word, line):
     return re.search(r'(?<![A-Za-z0-9_])' + re.escape(word) + r'(?![A-Za-z0-9_])', line.split(';')[0]) is not None
 
 
+def _rename_units(L, word):
+    return [(a0, a1) for a0, a1 in unit_spans(L)
+            if any(_word_in(word, re.sub(r'^[ \t]*\$\w+', '', ln)) for ln in L[a0:a1 + 1])]
+
+
+def _rename_adjacent(old, word):
+    """Are two statements that use the symbol consecutive statements of one code record?"""
+    for k, c in old:
+        if k in ('PK', 'PRED', 'ERROR'):
+            L = c.splitlines(keepends=True)
+            spans = unit_spans(L)
+            hit = [sp in _rename_units(L, word) for sp in spans]
+            if any(a and b for a, b in zip(hit, hit[1:])):
+                return True
+    return False
+
+
 def check_edit(text, edit, info):
     """Contract of update_source after one edit.  info describes where the edited component lives in
     the generated text: {'code_kind', 'line' / 'lo','hi' / 'symbol', 'rec_ordinal', 'token'}.
@@ -1184,9 +1205,11 @@ def check_edit(text, edit, info):
     old = ref_split(text)
     new = ref_split(new_text)
     related = EDIT_KINDS.get(op) or (info['code_kind'],)
+    if op == 'rename' and _rename_adjacent(old, edit[1]):
+        label = 'rename_symbols of a symbol used in consecutive statements'
     if op == 'rename':
         related = tuple(k for k, c in old if k in ('PK', 'PRED', 'ERROR')
-                        and any(_word_in(edit[1], ln) for ln in c.splitlines()[1:]))
+                        and _rename_units(c.splitlines(keepends=True), edit[1]))
     kinds = []
     for k, _ in old + new:
         if k not in kinds:
@@ -1244,9 +1267,8 @@ def check_edit(text, edit, info):
             N = b[0].splitlines(keepends=True)
             if op == 'rename':
                 ed = set()
-                for a0, a1 in unit_spans(L):
-                    if any(_word_in(edit[1], re.sub(r'^[ \t]*\$\w+', '', ln)) for ln in L[a0:a1 + 1]):
-                        ed.update(range(a0, a1 + 1))
+                for a0, a1 in _rename_units(L, edit[1]):
+                    ed.update(range(a0, a1 + 1))
                 ok = lines_preserved(L, N, sorted(ed))
             elif op == 'insert':
                 ok = lines_inserted(L, N, info['lo'], info['hi'])
@@ -1295,7 +1317,7 @@ def us_case_text(case):
         info['body'] = (lines, pos, tail_start, last)
     if case.get('cov') is False:
         kw['cov'] = False
-    recs = build_records(base, flags, **kw)
+    recs = build_records(base, flags, model=True, **kw)
     text, pre, chunks = render(recs, flags)
     if edit is None:
         return text, None, info
